@@ -68,11 +68,19 @@ def run(ctx):
             if set(s1) == set(s2):
                 continue
             oreqs.append(("c11_macro_overlap", [pop, s1, s2, rng.randrange(2)]))
+            # with user-chosen names both can be alive; one member set a subset of the other as well
+            s3 = s1 + [i for i in rng.sample(range(5), 2) if i not in s1][:1] if rng.random() < 0.6 else s2
+            if set(s3) != set(s1):
+                oreqs.append(("c11_macro_overlap", [pop, s1, s3, rng.randrange(2), True]))
         okinds = {}
         for rq, r in zip(oreqs, run_impl(oreqs)):
             what = None
             if isinstance(r, Err):
                 what = f"raised {r.kind}"
+            elif r[0] == "named":
+                if r[1] or r[2] or not r[3] or r[4] or r[6] != 2:
+                    what = (f"macrostates over different member sets: same object {r[1]}, == {r[2]}, != {r[3]}, reversed == {r[4]}, "
+                            f"set size {r[6]}")
             elif r[0] == "object":
                 if r[1]:
                     what = "a different member set was resolved to the live macrostate"
